@@ -5,13 +5,17 @@ from .common import EXACT_EMBS, unfl, run_driver_parallel
 from .fix import fix
 
 
-def gen_cfg(rng):
+# linear_ramp parameter sets (low, high, start, end); the last two have NEGATIVE weights (legal: low/high are free real parameters)
+RAMPS = [[0, 3, 2, 8], [1, 4, 0, 6], [0, 3, 2, 8], [1, 4, 0, 6], [-2, 3, 2, 8], [-1, -3, 0, 6]]
+
+
+def gen_cfg(rng, prefer_ramp=False):
     kern = rng.choice(["uniform", "giso", "giso", "ganiso", "gcorr", "gcorrmarg"])
     if kern == "gcorrmarg":
         # correlated Gaussian, sd 2 ticks, 4x4 pixels of 10 ticks: the grid reaches >= 8 sd around points near its centre
         g = dict(b0=-20, p0=0, ps=10, rx=4, ry=4, kern="gcorr", ka=2, kb=2, rho=rng.choice([0.3, -0.5, 0.8, -0.85, 0.6, 0.95, -0.95, -0.97, 0.93]), absdecide=0, marg=1, form="matrix", central=True)
         wk = rng.choice(["pers", "ramp", "const"])
-        g.update(wkind=wk, wn=1, ramp=[0, 3, 2, 8] if rng.random() < 0.5 else [1, 4, 0, 6])
+        g.update(wkind=wk, wn=1, ramp=rng.choice(RAMPS))
         return g
     ps = rng.choice([2, 4])
     g = dict(b0=rng.choice([0, -4, 2, 6]), p0=rng.choice([0, 2]), ps=ps, rx=rng.randint(2, 5), ry=rng.randint(2, 5))
@@ -25,8 +29,8 @@ def gen_cfg(rng):
         g.update(kern="gdiag", ka=ka, kb=kb, absdecide=1, form="matrix")
     else:
         g.update(kern="gcorr", ka=rng.choice([4, 8]), kb=rng.choice([4, 8]), rho=rng.choice([0.3, -0.5, 0.8, -0.85]), absdecide=0, form="matrix")
-    wk = rng.choice(["pers", "pers", "ramp", "const"])
-    g.update(wkind=wk, wn=rng.choice([1, 2]) if wk == "pers" else 1, ramp=[0, 3, 2, 8] if rng.random() < 0.5 else [1, 4, 0, 6], marg=0)
+    wk = rng.choice(["pers", "ramp", "ramp", "ramp"] if prefer_ramp else ["pers", "pers", "ramp", "const"])
+    g.update(wkind=wk, wn=rng.choice([1, 2]) if wk == "pers" else 1, ramp=rng.choice(RAMPS), marg=0)
     return g
 
 
@@ -46,7 +50,7 @@ def gen_points(rng, g, n):
 
 
 def build(rng, e, with_jobs=False):
-    g = gen_cfg(rng)
+    g = gen_cfg(rng, prefer_ramp=(e.s == 1 and e.t == 0))     # integer-dtype containers go with this embedding: fractional ramp weights matter there
     X, Y, Z = gen_points(rng, g, rng.randint(1, 4)), gen_points(rng, g, rng.randint(1, 4)), gen_points(rng, g, rng.randint(1, 3))
     if rng.random() < 0.4:
         Y.append(list(X[0]))          # a point shared by X and Y: the union has a repeated pair
@@ -87,7 +91,7 @@ def build(rng, e, with_jobs=False):
         calls.append(dict(ids=[0, 3, 1, 4], mode=rng.choice(["jobs1", "jobs2", "jobs4"]), skew=1))
         calls.append(dict(ids=[8, 8], mode=rng.choice(["jobs1", "jobs2"]), skew=0))      # workers must honour skew=False too
     job = dict(cfg=cfgf, dgms=[fd(d, sk) for d, sk in zip(dgms, skews)], calls=calls,
-               intdtype=bool(e.s == 1 and e.t == 0 and rng.random() < 0.5))      # integer arrays are a supported input form
+               intdtype=((True if rng.random() < 0.5 else "mixed") if (e.s == 1 and e.t == 0) else False))      # integer arrays are a supported input form
     return dict(g=g, dgms=dgms, skews=skews, names=names, job=job, emb=e)
 
 
